@@ -84,9 +84,20 @@ def check_update_timestep(reg, src, prop):
     return fi
 
 
-def install_call_stubs(ex, newton=True):
+def install_call_stubs(ex, newton=True, faulting=False):
     def step_stub(ex_, st_, ctx, args, kwargs):
         selfref, ts = args[0], args[5]
+        if faulting:
+            # the right-hand side may fail inside any step with an error that is not a linear-algebra / value error
+            sr = st_.fork()
+            sr.ghost["fault_raised"] = True
+            from pyvc.values import ExcVal
+            out = [(sr, Raised(ExcVal("RuntimeError", tag="rhs-fault")))]
+            out.append((st_, _step_ok(st_, selfref, ts)))
+            return out
+        return _step_ok(st_, selfref, ts)
+
+    def _step_ok(st_, selfref, ts):
         flag = z3.Bool(fresh_name("newton_ok"))
         st_.obj(st_.obj(selfref).fields["solver_dict"]).items["newton_iteration_success"] = flag
         st_.ghost["last_newton"] = flag
@@ -225,4 +236,29 @@ def check_implicit_aware(reg, src, prop):
             ex.prove(s, ctx, z3.And(z3.Implies(te > 0, z3.And(out > z3.Q(84, 100) * te, out < z3.Q(116, 100) * te)),
                                     z3.Implies(te < 0, z3.And(out < z3.Q(84, 100) * te, out > z3.Q(116, 100) * te))), "post", "tau-in-(0.84,1.16)#%d" % k)
             reg.ground("%s/%s/redo-passed-through#%d" % (prop, ctx.tag, k), "post", "implicit_aware_update_timestep", r2 is redo, backend="symbolic-exec")
+    return fi
+
+
+def check_rk_call_faults(reg, src, prop, implicit, adaptive):
+    """An exception raised inside step() that is not one of the caught linear-algebra / ValueError classes escapes
+    RungeKuttaIntegrator.__call__ unchanged, from the first attempt and from every retry."""
+    ex = Executor(src, reg, prop=prop)
+    install_call_stubs(ex, faulting=True)
+    fi = src.func(FT, "RungeKuttaIntegrator.__call__")
+    st = State()
+    selfobj = rk_self(st, implicit, adaptive, retries=2)
+    label = "implicit" if implicit else ("adaptive" if adaptive else "explicit-fixed")
+    ctx = Ctx(fi, None, fi.cls, tag="RungeKuttaIntegrator.__call__[faults,%s]" % label)
+    h = z3.Real("h0")
+    st.assume(h != 0)
+    consts = st.new_obj("dict", "dict", items={})
+    paths = ex.call_function(fi, [selfobj, UFunc("rhs", "real"), z3.Real("t"), z3.Real("y"), consts, h], {}, st, ctx)
+    n = 0
+    for k, (s, v) in enumerate(paths):
+        if s.ghost.get("fault_raised"):
+            n += 1
+            reg.ground("%s/%s/rhs-fault-propagates#path%d" % (prop, ctx.tag, k), "post-exc", "__call__",
+                       isinstance(v, Raised) and v.exc.cls == "RuntimeError", backend="symbolic-exec",
+                       detail="a RuntimeError raised inside step() escapes __call__ (outcome: %s)" % ("raised " + v.exc.cls if isinstance(v, Raised) else "returned normally"))
+    reg.ground("%s/%s/fault-paths-explored" % (prop, ctx.tag), "lemma", "__call__", n >= 1, detail="%d paths with an injected fault" % n)
     return fi
